@@ -169,7 +169,7 @@ def common_strategy(draw, meta_max=5, units=None):
     return {
         "units": u, "adsorbate": at["adsorbate"], "ads_kind": at["ads_kind"], "T": t,
         "material": draw(material_strategy()), "meta": draw(meta_strategy(meta_max)),
-        "target": target, "via_method": via_method,
+        "target": target, "via_method": via_method, "namesake": draw(st.sampled_from([False, False, False, True])),
     }
 
 
@@ -377,7 +377,31 @@ def _export(x, d, path=None):
     return isotherm_to_json(x, path) if path is not None else isotherm_to_json(x)
 
 
+def _other_value(v):
+    if isinstance(v, bool):
+        return not v
+    if isinstance(v, (int, float)):
+        return v + 1
+    if isinstance(v, str):
+        return v + "x"
+    return "other"
+
+
 def roundtrip(x, d, f, import_kwargs=None, model_queries=None):
+    """The oracle, with (one case in four) a material of the SAME NAME but other property values registered in the
+    material list in the meantime: the re-imported isotherm carries the exported description all the same."""
+    from pygaps.data import MATERIAL_LIST
+    ns = None
+    if d.get("namesake") and x.material.properties and not any(m.name == x.material.name for m in MATERIAL_LIST):
+        ns = Material(x.material.name, store=True, **{k: _other_value(v) for k, v in x.material.properties.items()})
+    try:
+        return _roundtrip(x, d, f, import_kwargs, model_queries)
+    finally:
+        if ns is not None:
+            MATERIAL_LIST[:] = [m for m in MATERIAL_LIST if m is not ns]
+
+
+def _roundtrip(x, d, f, import_kwargs=None, model_queries=None):
     """The oracle shared by the three classes. `x` the original, `d` the descriptor, `f` the failure collector."""
     import_kwargs = import_kwargs or {}
     snap = _snapshot(x)
@@ -477,6 +501,8 @@ def _label_common(d, ctx):
     for fl in sorted(flags):
         ctx.label("meta_" + fl)
     ctx.label("material_" + d["material"]["form"], "ads_" + d["ads_kind"], "target_" + d["target"])
+    if d.get("namesake") and d["material"]["props"]:
+        ctx.label("registered_namesake")
     if d["material"]["props"]:
         ctx.label("material_props")
     u = d["units"]
